@@ -331,7 +331,7 @@ def run_unit(unit):
     rname, root = roots()[ridx]
     out = UnitOut()
     depth = 2 if tier == "quick" else 3
-    order, transitions, capped = bfs([(root, 0)], successors, canon, depth, max_states=700 if tier == "quick" else 12000)
+    order, transitions, capped = bfs([(root, 0)], successors, canon, depth, max_states=1600 if tier == "quick" else 12000)
     out.count("bfs_transitions", transitions)
     if capped:
         out.count("capped")
@@ -454,7 +454,7 @@ def main(pid, tier):
                     "constant / K*1 / (K+1)-1, renumber +1 / x2) to depth %d from %d roots, canonical de-duplication; every state compiled by the real "
                     "compiler; every BASIS value of the root encoded by the generated Python (and by generated C on every %dth state) and compared with "
                     "the root's bytes; non-trivial = value has a bit set" % (2 if tier == "quick" else 3, len(roots()), 7 if tier == "quick" else 3),
-               exhaustive=not c["capped"], bound="depth %d, state cap per root %d" % (2 if tier == "quick" else 3, 700 if tier == "quick" else 12000))
+               exhaustive=not c["capped"], bound="depth %d, state cap per root %d" % (2 if tier == "quick" else 3, 1600 if tier == "quick" else 12000))
     return finish(PID, tier, acc, cov, t0, assumptions=["the rewrites preserve the reference layout by construction (asserted on every state)"], guards=g,
                   capped=("state cap reached in %d roots: BFS layers beyond the cap were not explored" % c["capped"]) if c["capped"] else None)
 
